@@ -56,3 +56,21 @@ Theorem c04_step_isolated : forall s m s' r k, mstep s m = (s', r) -> k <> mop_h
   (k < length s)%nat -> nth_error s' k = nth_error s k.
 Proof. exact MStore.mstep_isolated. Qed.
 Print Assumptions c04_step_isolated.
+
+(* ---------------------------------------------------------------------------------------------- *)
+(* REGENERATED FROM THE SOURCE ON EVERY RUN (tools/gen -> Generated.g_code; Decisions.v): the decisions the model
+   takes at these points are the evaluations of the conditions the Go source has there, for all values of their
+   variables. *)
+From GK Require Import GExpr Generated Decisions.
+From Coq Require Import String.
+
+(* mutations and Flush are refused on a read-only store (MStore.snapshot_refuses) *)
+Theorem c04_readonly_refuses_is_source :
+  hd_error (conds 400 (body "Collection.SetItem")) = Some (GVar "t.store.readOnly") /\
+  hd_error (conds 400 (body "Collection.Delete")) = Some (GVar "t.store.readOnly") /\
+  hd_error (conds 400 (body "Store.Flush")) = Some (GVar "s.readOnly") /\
+  nth_error (conds 400 (body "Store.Flush")) 1 = Some (GBin "==" (GVar "s.file") GNil) /\
+  (forall f, In f ["Collection.SetItem"; "Collection.Delete"; "Store.Flush"] ->
+     match body f with SIf [] _ (SReturn _ :: _) [] :: _ => True | _ => False end).
+Proof. exact Decisions.readonly_refuses. Qed.
+Print Assumptions c04_readonly_refuses_is_source.
